@@ -23,6 +23,7 @@ TARGETS = {
     "fuzz_hex": dict(variant="fuzzrel", srcs=["t_hex.cc"], objsuffix="_fz", cflags="-DVF_FUZZ_MAIN", libs=RC, ldflags="-fsanitize=fuzzer"),
     "fuzz_copy": dict(variant="fuzzrel", srcs=["t_copy.cc"], objsuffix="_fz", cflags="-DVF_FUZZ_MAIN", libs=RC, ldflags="-fsanitize=fuzzer"),
     "fuzz_registry": dict(variant="fuzzrel", srcs=["t_registry.cc"], objsuffix="_fz", cflags="-DVF_FUZZ_MAIN", libs=RC, ldflags="-fsanitize=fuzzer"),
+    "t_huge": dict(variant="opt", srcs=["t_huge.cc", "ascii_shim_poly.cc", "ascii_shim_tet.cc"], libs=""),
     "t_handles": dict(variant="opt", srcs=["t_handles.cc"], libs="-lpthread"),
 }
 
@@ -405,14 +406,19 @@ CHECKS = {
               "handle designates an existing entity, every property has one element per entity and the mesh can be "
               "traversed with bottom-up incidences rebuilt. Seed corpus: the repository's test files + structure-aware "
               "seeds, format dictionaries. Inputs declaring > 10^6 entities (or > 6-digit integers in text) are "
-              "skipped and counted. non-trivial = input passes the magic / header (OVMB) resp. reaches the Vertices "
+              "skipped and counted in the campaigns; that clause is decided separately by ENUMERATION (target t_huge, "
+              "optimised build without sanitizer, every case in a forked child under RLIMIT_AS = 1 GiB and a 20 s "
+              "limit): every byte offset of two small valid OVMB files x {u64, u32} x 14 huge values (2^20 ... 2^64-1), "
+              "and every numeric token of two valid text files x 11 huge decimal numbers (up to 20 digits, -1): the "
+              "child must end without a signal with failure, an escaping std::exception (bad_alloc / length_error) "
+              "or success with a valid mesh. non-trivial = input passes the magic / header (OVMB) resp. reaches the Vertices "
               "section (ASCII); distinct = distinct input hash, reported as the largest per-process count (a lower "
               "bound of the union)"),
         assumptions=["-timeout=10: a timeout artifact counts only if the replay of a < 64 KB input reproducibly fails to terminate",
                      "libFuzzer seeds pin a campaign only approximately; the saved artifact is the reproducible unit"],
-        technique="coverage-guided fuzzing (libFuzzer) with structure-aware mutation and an in-target validity post-condition",
+        technique="coverage-guided fuzzing (libFuzzer) with structure-aware mutation and an in-target validity post-condition; enumeration of huge declared sizes under an address-space limit",
         level_text="Coverage-guided byte-level and structure-aware fuzzing of both readers under sanitizers with a semantic post-condition.",
-        level_note="Declared sizes beyond 10^6 are excluded from the campaigns (allocator behaviour only).",
+        level_note="Declared sizes beyond 10^6 are excluded from the sanitizer campaigns and covered by the t_huge enumeration instead (no sanitizer there).",
     ),
 }
 
